@@ -370,7 +370,16 @@ class Capped(list):
         super().append(x)
 
 
-CURRENT = {"case": None}
+CURRENT = {"case": None, "hangs": 0}
+MAX_HANGS_PER_STREAM = 4
+
+
+def _note_hang():
+    """A decoder call was interrupted.  The failure is reported by the caller; after a few of them the
+    rest of the stream is skipped (each costs seconds) by re-raising to `_guard`."""
+    CURRENT["hangs"] += 1
+    if CURRENT["hangs"] > MAX_HANGS_PER_STREAM:
+        raise Hang()
 
 
 def make_recv(chunks):
@@ -438,7 +447,7 @@ def read_all_real(proto, limit=1_000_000):
     out = []
     exc = None
     try:
-        with time_limit(10):
+        with time_limit(4):
             for _ in range(limit):
                 try:
                     pkt = proto.read_pkt_line()
@@ -453,6 +462,7 @@ def read_all_real(proto, limit=1_000_000):
                 out.append("HANG")
     except Hang:
         out.append("HANG")
+        _note_hang()
     return " ".join(out), exc
 
 
@@ -484,7 +494,7 @@ def real_parse(chunks):
     p = PktLineParser(got.append)
     end = None
     try:
-        with time_limit(10):
+        with time_limit(4):
             for c in chunks:
                 try:
                     p.parse(c)
@@ -495,6 +505,7 @@ def real_parse(chunks):
                     break
     except Hang:
         end = "HANG"
+        _note_hang()
     if end is None:
         end = "T:" + hx(p.get_tail())
     return " ".join([show_pkt(x) for x in got] + [end])
@@ -608,7 +619,7 @@ def frame_boundaries(ps):
     from dulwich.protocol import pkt_line
     pos, out = 0, []
     for p in ps:
-        pos += len(pkt_line(p))
+        pos += 4 if p is DELIM else len(pkt_line(p))
         out.append(pos)
     return out
 
@@ -728,9 +739,12 @@ def drv_chunks(chunks):
 # ------------------------------------------------------------------------------------------------
 # streams
 
+DELIM = "delim-pkt"   # written raw (b"0001") by dulwich's protocol-v2 client code; pkt_line cannot produce it
+
+
 def _enc(ps):
     from dulwich.protocol import pkt_line
-    return b"".join(pkt_line(p) for p in ps)
+    return b"".join(b"0001" if p is DELIM else pkt_line(p) for p in ps)
 
 
 def _short(s: str, n=160):
@@ -911,12 +925,18 @@ def _stream_roundtrip(ctx):
     # fixed boundary cases of the quantifier: empty, 1 byte, 65515, 65516 bytes; flush/delim mixes
     seqs += [("fixed", s) for s in ([], [None], [b""], [b"a"], [b"", b""], [None, None], [b"a", None, b"", b"b"],
                                     [b"x" * 65515], [b"y" * 65516], [b"z" * 65516, None, b"w" * 65515, b"", b"q"])]
+    # protocol-v2 style requests: payloads with a delim-pkt in between (readers return None for it, the
+    # incremental parser refuses it with a protocol error; checked against the reference, not as a round trip)
+    for _ in range(ctx.budget(150)):
+        ps = gen_seq(rng, maxlen=4)
+        ps.insert(rng.randint(0, len(ps)), DELIM)
+        seqs.append(("delim", ps))
     for kind, ps in seqs:
         data = _enc(ps)
         bounds = frame_boundaries(ps)
         for _ in range(2 if kind != "seq" else 1):
             mode, chunks = random_partition(rng, data, bounds)
-            pend += _check_decoders(ctx, "rt", data, chunks, ps=ps, tag=f"{kind}:{mode}")
+            pend += _check_decoders(ctx, "rt", data, chunks, ps=None if kind == "delim" else ps, tag=f"{kind}:{mode}")
         if len(ctx.samples) < 2 and kind == "seq" and ps:
             ctx.sample({"stream": "rt", "payloads": [None if p is None else hx(p)[:40] for p in ps],
                         "chunk_sizes": [len(c) for c in chunks][:20]})
@@ -1532,9 +1552,10 @@ def _fingerprints(ctx):
         return
     changed = sorted(q for q in FP_FUNCS if BASE_FP.get(q) not in (None, cur[q]))
     ctx.extra_cov["anchored_functions_changed"] = changed
-    if changed and "VERIF_BUDGET_SCALE" not in os.environ:
-        os.environ["VERIF_BUDGET_SCALE"] = "4"
-        ctx.notes.append(f"anchored functions changed since the pinned commit: {changed}; budgets x4")
+    if changed and "VERIF_BUDGET_SCALE" not in os.environ and (ctx.lean is None or ctx.lean.ok):
+        # (a broken proof/translator already multiplies every budget by 5 in core.Ctx.budget)
+        os.environ["VERIF_BUDGET_SCALE"] = "3"
+        ctx.notes.append(f"anchored functions changed since the pinned commit: {changed}; budgets x3")
 
 
 def _run_corpus(ctx):
@@ -1599,6 +1620,7 @@ def _guard(ctx, fn):
     """Run one stream; real code that does not terminate (or floods its callback) is a property failure
     (`every byte string fed to the decoder yields frames or a protocol error`), not a harness hang."""
     CURRENT["case"] = None
+    CURRENT["hangs"] = 0
     import time
     t0 = time.time()
     try:
